@@ -100,6 +100,12 @@ func aggReport(first *roaring.Bitmap, orig, passed []*roaring.Bitmap) string {
 	}
 	sb.WriteByte(' ')
 	sb.WriteString(sliceToken(orig, passed))
+	// the result of an aggregate is a library-made bitmap: it validates (C09)
+	if err := first.Validate(); err != nil {
+		sb.WriteString(" valid=no:" + spaceless(err.Error()))
+	} else {
+		sb.WriteString(" valid=ok")
+	}
 	return sb.String()
 }
 
